@@ -1,0 +1,43 @@
+//go:build verif
+
+package net
+
+// Contracts checked by /verif's govc.  Comments only; build tag "verif".
+
+//@ unit net errflow
+//@ ghost failed bool
+//@
+//@ extern context.* -> (r)
+//@   nodefault
+//@ extern blockservice.* -> (r)
+//@   nodefault
+//@ extern NewErr* -> (e)
+//@   ensures e != nil
+//@   nodefault
+//@ extern event.NewMessage(name, data) -> (m)
+//@   ensures m.Name == name
+//@   nodefault
+//@
+//@ protocol ErrFlow
+//@   requires !failed
+//@   ensures errResult == nil ==> !failed
+//@   modifies failed
+//@   tags C12 C04
+//@ apply ErrFlow: syncDAG, loadBlockLinks, (*server).processPushlog
+//@
+//@ // ===== C12: a block with an attached signature is verified before any of its links is followed ======
+//@ // (the goroutines that load the links are not modelled; the obligation is on the sequential prefix)
+//@ func loadBlockLinks -> (err)
+//@   assert before call#1 AllLinks: old(block.Signature) != nil ==> res(VerifyBlockSignature, 1, 1) == nil
+//@   assert before call#1 VerifyBlockSignature: arg0 == block
+//@   tags C12
+//@ // ===== C04/C12: the merge event is raised only after the whole DAG was stored and synced ==============
+//@ func syncDAG -> (err)
+//@   assert before call#1 loadBlockLinks: res(Store, 1, 1) == nil && arg2 == block
+//@   tags C04 C12
+//@ extern (event.Bus).Publish(bus, msg)
+//@   requires msg.Name == event.MergeName ==> !failed
+//@   nodefault
+//@ func (*server).processPushlog -> (r, err)
+//@   assert before call#1 Publish: res(syncDAG, 1, 0) == nil && callarg(syncDAG, 1, 2) == res(GetFromBytes, 1, 0)
+//@   tags C04 C12
